@@ -92,7 +92,7 @@ def pred_f23(case, record, exp=None):
     calls = _calls(record)
     if calls is None:
         return True
-    return any(c["res"] in (2, 3, 4) for c in calls) and any(c["idle"][5] > 0 or c["idle"][6] > 0 for c in calls)
+    return any(c["res"] in (2, 3, 4) for c in calls) and any(c["idle"][5] > 0 or c["idle"][6] > 0 or c["idle"][0] != 0 for c in calls)
 
 
 PRED_BY_ID = {"F23": pred_f23}
